@@ -152,8 +152,9 @@ where
 
     let mag = parse_digits_u128(digits, radix).ok_or_else(invalid)?;
     let val_i128: i128 = if neg {
-        let mag_i128: i128 = mag.try_into().map_err(|_| invalid())?;
-        mag_i128.checked_neg().ok_or_else(invalid)?
+        // 0 - mag, exact for every magnitude up to 2^127 (so that i128::MIN is representable
+        // in the 0x / 0o / 0b notations too, as it is in decimal)
+        0i128.checked_sub_unsigned(mag).ok_or_else(invalid)?
     } else {
         mag.try_into().map_err(|_| invalid())?
     };
